@@ -52,6 +52,9 @@ func raceLogPrefix() string {
 // with one sub-class per report.
 func raceViolation(txt string) *detsim.Violation {
 	v := &detsim.Violation{Class: "race", Detail: txt}
+	if len(v.Detail) > 200000 {
+		v.Detail = v.Detail[:200000] + "\n[... truncated]"
+	}
 	seen := map[string]bool{}
 	for _, rep := range strings.Split(txt, "WARNING: DATA RACE") {
 		if !strings.Contains(rep, " by goroutine ") {
